@@ -309,8 +309,57 @@ def codec_jobs(tier):
     return J
 
 
+# ---------------------------------------------------------------------------------------------- 6. send / open (reuse)
+def machine_reuse_jobs(tier):
+    """ares_send_nolock (harness/machine/send_early.c: any single allocation failure 1st..6th, symbolic) and
+    ares_open_connection (harness/C10/open_conn.c: vp_alloc_fail_at symbolic in 0..12) already inject the failing
+    allocation as a solver variable: run them as C14 jobs."""
+    import sys
+    sys.path.insert(0, os.path.join(HARN, "machine"))
+    import mjobs
+    J = []
+    for j in mjobs.send_early_jobs(tier):
+        j = dict(j)
+        j["mem_gb"] = 6
+        J.append(j)
+    c10 = _load("C10/jobs.py", "c10_jobs_for_c14")
+    for j in c10.jobs(tier, 0):
+        if not j["name"].startswith("open_conn_"):
+            continue
+        if tier == "quick" and j["name"] not in ("open_conn_udp_v4", "open_conn_tcp_v6"):
+            continue
+        j = dict(j)
+        j["harness"] = "../C10/" + j["harness"]
+        j["mem_gb"] = 6
+        J.append(j)
+    for j in J:
+        j["bound"] = j.get("bound", "") + " [harness reused: its witnesses 'failed' / 'open failed' and 'completed synchronously' / 'pending' / 'open ok' play the role of 'allocation failure reported' / 'no failure']"
+    return J
+
+
+def search_jobs(tier):
+    J = []
+    real = LIB + ["src/lib/str/ares_str.c", "src/lib/str/ares_strsplit.c", "src/lib/record/ares_dns_mapping.c",
+                  "src/lib/str/ares_buf.c", "src/lib/dsa/ares_array.c", "src/lib/dsa/ares_llist.c"]
+    for ni, nm in enumerate(["a", "a.b", "a."]):
+        for nd, nos in ((2, 0), (0, 0), (2, 1)):
+            if tier == "quick" and (nd, nos) != (2, 0) and ni != 0:
+                continue
+            J.append(dict(name="search_start_%s_nd%d_nosearch%d" % (nm.replace(".", "dot"), nd, nos), harness="search_oom.c",
+                          defines=["-DNAME_IDX=%d" % ni, "-DND=%d" % nd, "-DNOSEARCH=%d" % nos], real=real,
+                          support=["vp_rt.c", "valloc.c", "memloops.c", "lock_ghost.c", "dnsrec_abs.c"], unwind=26,
+                          witnesses=["end", FAILW, OKW],
+                          bound="ares_search_dnsrec from scratch for name '%s', %d search domains of {x, y.z}, ndots 0..2, "
+                                "NOSEARCH=%d, with any one REAL allocation (position 0..24, solver-chosen) failing; "
+                                "ares_send_nolock = contract stub of C01 (sync failure any status / sync answer / pending)" %
+                                (nm, nd, nos)))
+    return J
+
+
 def jobs(tier, seed):
     J = []
+    J += machine_reuse_jobs(tier)
+    J += search_jobs(tier)
     J += buf_jobs(tier)
     J += codec_jobs(tier)
     J += record_jobs(tier)
